@@ -200,6 +200,43 @@ def variants_job(spec):
             except Exception as ex:  # noqa: BLE001
                 tr = equiv.merge("C14_Logging", True, [], [], {"no_exception_" + type(ex).__name__: False})
             traces.append(("logging", f"iprint={iprint} logger={with_logger}", tr))
+    # ... also when an update function rewrites the stored gradients (the curvature filter has a logging branch)
+    def mk_upd():
+        n = {"c": 0}
+
+        def upd(x, f0, f0_old, grad, X, G):
+            n["c"] += 1
+            if n["c"] == 3:
+                from collections import deque
+                return f0, f0_old, grad, deque((-g if i % 2 else g.copy()) for i, g in enumerate(G))
+            return f0, f0_old, grad, G
+        return upd
+
+    base_u = None
+    for with_logger in (False, True):
+        logger = None
+        if with_logger:
+            logger = logging.getLogger(f"verif-c14u-{spec['pseed']}")
+            logger.handlers = [logging.StreamHandler(io.StringIO())]
+            logger.propagate = False
+            logger.setLevel(logging.INFO)
+        lg = equiv.EvalLog(p.fun, p.grad)
+        try:
+            r = lbfgsb.minimize_lbfgsb(x0=p.x0, fun=lg.fun, jac=lg.grad, bounds=p.bounds, update_fun_def=mk_upd(),
+                                       iprint=1 if with_logger else -1, logger=logger, **kw)
+            cur = (r, lg.pts, None)
+        except Exception as ex:  # noqa: BLE001
+            cur = (None, lg.pts, ex)
+        if base_u is None:
+            base_u = cur
+        else:
+            if (base_u[2] is None) != (cur[2] is None):
+                tr = equiv.merge("C14_Logging", True, [], [], {"same_outcome_with_and_without_logger": False})
+            elif cur[2] is not None:
+                tr = equiv.merge("C14_Logging", True, base_u[1], cur[1], {"same_exception": type(base_u[2]) is type(cur[2])})
+            else:
+                tr = equiv.merge("C14_Logging", True, base_u[1], cur[1], equiv.result_fields(base_u[0], cur[0]))
+            traces.append(("logging", "update_fun_def rewrite, logger on/off", tr))
     # restart twice from the same checkpoint object; checkpoint untouched; read-only checkpoint accepted
     kw1 = dict(kw)
     kw1["maxiter"] = max(1, min(3, kw.get("maxiter", 5) - 1))
